@@ -153,7 +153,9 @@ func (x *Exec) merge(edges []edge) *State {
 			allocs = append(allocs, a)
 		}
 	}
-	sort.Slice(allocs, func(i, j int) bool { return allocs[i].Pos() < allocs[j].Pos() || (allocs[i].Pos() == allocs[j].Pos() && allocs[i].Name() < allocs[j].Name()) })
+	sort.Slice(allocs, func(i, j int) bool {
+		return allocs[i].Pos() < allocs[j].Pos() || (allocs[i].Pos() == allocs[j].Pos() && allocs[i].Name() < allocs[j].Name())
+	})
 	for _, a := range allocs {
 		v0 := edges[0].st.Cells[a]
 		out := Value{T: v0.T, L: make([]Term, len(v0.L)), Loc: v0.Loc, Clo: v0.Clo, Fn: v0.Fn, Bind: v0.Bind}
@@ -322,11 +324,10 @@ func (x *Exec) assumeTypeInv(s *State, v Value) {
 			tag, ref, off := v.L[at], v.L[at+1], v.L[at+2]
 			x.C.Assume(Implies(s.Reach, And(App(SBool, "<=", IntLit(0), tag),
 				App(SBool, "<", ref, s.Frontier),
-				BVCmp("bvult", off, BVLitI(64, 1<<44)),
 				Implies(Eq(tag, IntLit(0)), And(Eq(ref, IntLit(0)), Eq(off, BVLitI(64, 0)))))))
 		case *types.Basic:
 			if u.Info()&types.IsString != 0 {
-				x.C.Assume(Implies(s.Reach, BVCmp("bvult", App(SBV64, "str.len", v.L[at]), BVLitI(64, 1<<40))))
+				x.C.Assume(Implies(s.Reach, BVCmp("bvult", App(SBV64, "sx.len", v.L[at]), BVLitI(64, 1<<40))))
 			}
 		}
 	})
@@ -390,15 +391,14 @@ func (x *Exec) zeroObject(s *State, ref Term, t types.Type) {
 func (x *Exec) havocHeaps(s *State, sorts []Sort, why string) {
 	if sorts == nil {
 		sorts = AllLeafSorts
+		for g := range x.E.ghostEmitters() {
+			s.Ghost[g] = x.ghost(s, g)
+		}
 		x.baseCounter++
 		s.Base = fmt.Sprintf("h%d", x.baseCounter)
 		s.MapDom = map[Sort]Term{}
 		s.MapVal = map[string]Term{}
-		for g := range s.Ghost {
-			if !x.E.ghostStable[g] {
-				delete(s.Ghost, g)
-			}
-		}
+		// ghosts are handled by havocGhosts (call-graph based)
 	}
 	for _, k := range sorts {
 		s.Heaps[k] = x.C.Fresh("H_"+why, HeapSort(k))
